@@ -782,9 +782,39 @@ def writer_rows(ck, a, wname):
         if base.root != env['buf_root'] or base.path:
             continue
         part = hdr_partition(ck.facts, W)
+        later = later_headers(ck.facts, a, W) if part is None else None
+        if later:
+            # a write that happens before the header is built (the CRC trailer of an end fragment written first): it belongs to
+            # the packets whose header calls the path goes on to reach, and is judged in their worlds
+            for part2, Wh, gv in later:
+                L = Lin.c(LABEL_LEN[part2[1]])
+                rows.append({'part': part2, 'start': start, 'len': ln, 'src': describe_src(a, env, Wh, src, L), 'raw': src, 'W': Wh, 'site': r.site, 'g': gv})
+            continue
         L = Lin.c(LABEL_LEN[part[1]]) if part else None
         rows.append({'part': part, 'start': start, 'len': ln, 'src': describe_src(a, env, W, src, L), 'raw': src, 'W': W, 'site': r.site})
     return env, rows
+
+
+def later_headers(facts, a, W):
+    """[(partition, world at the header call, GSE length passed)] of the generate_gse_header calls that the path of W goes on to
+    reach (every constraint of W still holds there), when there is at least one and they all agree on packet kind and label
+    type; None otherwise (the caller then reports the write as unplaced)"""
+    if ghost(W, 'hdr_calls') is not None:
+        return None
+    out = []
+    for r in a.events('call'):
+        if r.data[1] != GEN_HDR:
+            continue
+        Wh = r.data[5]
+        if W.store.cons <= Wh.store.cons:
+            kv = a.I.read(Wh.fork(), r.data[3][0][1]) if r.data[3][0][0] == 'ref' else None
+            lv = a.I.read(Wh.fork(), r.data[3][1][1]) if r.data[3][1][0] == 'ref' else None
+            if kv is None or lv is None or kv[0] != 'enum' or lv[0] != 'enum' or len(kv[1]) != 1 or len(lv[1]) != 1:
+                return None
+            out.append(((facts.variant_name(PKT, kv[1][0][0]), facts.variant_name('label::LabelType', lv[1][0][0])), Wh, r.data[3][2]))
+    if not out or len({p_ for p_, _, _ in out}) != 1:
+        return None
+    return out
 
 
 # independent reading of ETSI TS 102 606 (clause 4.2): field order and sizes per packet kind.
